@@ -81,6 +81,7 @@ def s4(chk: Check, proj: Project, m) -> None:
     chk.ob("S4", "component_media:_get_comp_cls_media:resolves-before-reading-Media", m.loc(reads[0]) if reads else m.loc(gm_), okm,
            "the class's inputs are resolved (_resolve_media) before its Media is read, as in _get_comp_cls_attr" if okm else
            "`.media` reads the class's Media without resolving it first (only `.template`/`.js`/`.css` call _resolve_media): the memoised result holds unresolved relative paths when `.media` is the first access and resolved ones otherwise - the result depends on the access order")
+    s4b_merge_loop(chk, m)
     r = m.func("_resolve_media")
     chk.analysed(fkey(m, r))
     # the "library base class" test must identify the class exactly (import path / identity), not by its bare name
@@ -107,6 +108,22 @@ def s4(chk: Check, proj: Project, m) -> None:
         chk.ob("S4", f"component_media:_resolve_media:resolved-is-last@{'early' if st is stores[0] and len(stores) > 1 else 'end'}", m.loc(later[0]) if later else m.loc(st), not later,
                "no call and no store into the record can follow `resolved = True`" if not later else
                f"`{short(later[0])}` runs after the record was flagged resolved: if it raises (a file not on disk yet) the class stays flagged and every later access silently returns None / unresolved values; a concurrent reader sees a half-filled record")
+
+
+def s4b_merge_loop(chk: Check, m, rule: str = "S4") -> None:
+    """Every selected base contributes: in the merge loop a base is skipped only when its memo entry is missing."""
+    f = m.func("_get_comp_cls_media")
+    loops = [lp for lp in ast.walk(f) if isinstance(lp, ast.For) and any(isinstance(c, ast.Call) and isinstance(c.func, ast.Attribute) and c.func.attr == "get" and norm(c.func.value) == "media_cache" for c in ast.walk(lp))]
+    if len(loops) != 1:
+        chk.undecided(rule, "component_media:_get_comp_cls_media:merge-loop-skips-only-missing", m.loc(f), f"{len(loops)} merge loops")
+        return
+    lp = loops[0]
+    var = next((st.targets[0].id for st in lp.body if isinstance(st, ast.Assign) and isinstance(st.targets[0], ast.Name) and "media_cache" in norm(st.value)), None)
+    skips = [st for st in ast.walk(lp) if isinstance(st, ast.If) and any(isinstance(x, ast.Continue) for x in st.body)]
+    bad = [st for st in skips if norm(st.test) != f"{var} is None"]
+    chk.ob(rule, "component_media:_get_comp_cls_media:merge-loop-skips-only-missing", m.loc(bad[0]) if bad else m.loc(lp), not bad,
+           f"a base is skipped only if `{var} is None`" if not bad else
+           f"`if {short(bad[0].test)}: continue` skips bases that DO have Media (e.g. stylesheets only, or scripts only): the files they contribute are missing from every class below them")
 
 
 def _rstrip_sites(tree: ast.AST) -> List[ast.Call]:
